@@ -151,7 +151,7 @@ theorem methodcall_cimobject_keys (C : Codec) (K : KeyCodec) (dn : Str) (m obj :
       match keys with
       | none => hdr = n ++ ':' :: c
       | some ks => ∃ (named sorted : List (Str × Atom)) (toks : List Str) (rec : Path → Option Str),
-          namedKeys ks = some named ∧ sorted.Perm named ∧
+          namedKeys ks = some named ∧ sorted.Perm named ∧ sorted = named.foldr insertKey [] ∧
           Zip2 (fun kv t => KeyAgrees C K rec kv t) sorted toks ∧
           hdr = (if toks.isEmpty then n ++ ':' :: c else n ++ ':' :: c ++ '.' :: joinComma toks) := by
   simp only [methodcall] at hr
@@ -217,8 +217,92 @@ theorem methodcall_cimobject_keys (C : Codec) (K : KeyCodec) (dn : Str) (m obj :
           rw [hn] at hs
           simp only [Option.map_some, Option.some.injEq] at hs
           subst hs
-          refine ⟨named, _, toks, rec, hn, foldr_insertKey_perm named, ?_, hrp.symm⟩
+          refine ⟨named, _, toks, rec, hn, foldr_insertKey_perm named, rfl, ?_, hrp.symm⟩
           have := mapOpt_forall₂ (keyTok K rec) _ toks ht
           exact this.imp (fun kv t hkt => keyTok_agrees C K rec kv t hkt)
+
+/-! ### the keybindings are written in code point order of their names (`sorted(keys)`) -/
+
+theorem strLt_cons (a b : Char) (as bs : Str) : strLt (a :: as) (b :: bs) = (decide (a.toNat < b.toNat) || (a == b && strLt as bs)) := rfl
+
+theorem char_eq_of_toNat {a b : Char} (h : a.toNat = b.toNat) : a = b := by
+  have := congrArg Char.ofNat h
+  simpa [Char.ofNat_toNat] using this
+
+theorem strLt_asymm : ∀ (a b : Str), strLt a b = true → strLt b a = false
+  | [], [], h => by simp [strLt] at h
+  | [], _ :: _, _ => rfl
+  | _ :: _, [], h => by simp [strLt] at h
+  | a :: as, b :: bs, h => by
+    simp only [strLt_cons, Bool.or_eq_true, decide_eq_true_eq, Bool.and_eq_true, beq_iff_eq] at h
+    simp only [strLt_cons, Bool.or_eq_false_iff, decide_eq_false_iff_not, Bool.and_eq_false_iff]
+    rcases h with h | ⟨rfl, h⟩
+    · refine ⟨by omega, .inl ?_⟩
+      simp; intro e; subst e; omega
+    · exact ⟨by omega, .inr (strLt_asymm as bs h)⟩
+
+/-- negative transitivity: a ≤ b and b ≤ c give a ≤ c, where x ≤ y means ¬ (y < x) -/
+theorem strLe_trans : ∀ (a b c : Str), strLt b a = false → strLt c b = false → strLt c a = false
+  | [], _, c, _, _ => by cases c <;> rfl
+  | a :: as, [], c, h, _ => by simp [strLt] at h
+  | a :: as, b :: bs, [], _, h2 => by simp [strLt] at h2
+  | a :: as, b :: bs, c :: cs, h1, h2 => by
+    simp only [strLt_cons, Bool.or_eq_false_iff, decide_eq_false_iff_not, Bool.and_eq_false_iff] at h1 h2 ⊢
+    obtain ⟨h1a, h1b⟩ := h1
+    obtain ⟨h2a, h2b⟩ := h2
+    refine ⟨by omega, ?_⟩
+    by_cases hca : c = a
+    · subst hca
+      right
+      have hbc : b = c := by
+        apply char_eq_of_toNat; omega
+      subst hbc
+      have h1' : strLt bs as = false := by rcases h1b with h | h <;> simp_all
+      have h2' : strLt cs bs = false := by rcases h2b with h | h <;> simp_all
+      exact strLe_trans as bs cs h1' h2'
+    · left; simpa using hca
+
+/-- sorted by key name: no later name is smaller than an earlier one -/
+def SortedKeys (l : List (Str × Atom)) : Prop := l.Pairwise (fun a b => strLt b.1 a.1 = false)
+
+theorem insertKey_mem (k : Str × Atom) : ∀ (l : List (Str × Atom)) (x : Str × Atom), x ∈ insertKey k l → x = k ∨ x ∈ l
+  | [], x, h => by simp [insertKey] at h; exact .inl h
+  | q :: qs, x, h => by
+    simp only [insertKey] at h
+    split at h
+    · rcases List.mem_cons.mp h with rfl | h
+      · exact .inr (by simp)
+      · rcases insertKey_mem k qs x h with e | e
+        · exact .inl e
+        · exact .inr (by simp [e])
+    · rcases List.mem_cons.mp h with rfl | h
+      · exact .inl rfl
+      · exact .inr h
+
+theorem insertKey_sorted (k : Str × Atom) : ∀ (l : List (Str × Atom)), SortedKeys l → SortedKeys (insertKey k l)
+  | [], _ => by simp [insertKey, SortedKeys]
+  | q :: qs, h => by
+    have hq : ∀ r ∈ qs, strLt r.1 q.1 = false := (List.pairwise_cons.mp h).1
+    have hs : SortedKeys qs := (List.pairwise_cons.mp h).2
+    simp only [insertKey]
+    split
+    · rename_i hlt
+      -- q < k: q stays first
+      refine List.pairwise_cons.mpr ⟨?_, insertKey_sorted k qs hs⟩
+      intro r hr
+      rcases insertKey_mem k qs r hr with rfl | hr
+      · exact strLt_asymm _ _ hlt
+      · exact hq r hr
+    · rename_i hge
+      have hkq : strLt q.1 k.1 = false := by simpa using hge
+      refine List.pairwise_cons.mpr ⟨?_, h⟩
+      intro r hr
+      rcases List.mem_cons.mp hr with rfl | hr
+      · exact hkq
+      · exact strLe_trans k.1 q.1 r.1 hkq (hq r hr)
+
+theorem foldr_insertKey_sorted : ∀ (l : List (Str × Atom)), SortedKeys (l.foldr insertKey [])
+  | [] => by simp [SortedKeys]
+  | k :: l => by simp only [List.foldr_cons]; exact insertKey_sorted k _ (foldr_insertKey_sorted l)
 
 end Proofs.DtdReq
